@@ -1108,3 +1108,19 @@ def check_answer(fail, fin, qn, qtype, qclass, ch, now, server):
         fail("expiration is not arrival time + minimum TTL", sig="chain-ttl")
     if a_server != server:
         fail("Answer.nameserver is not the server that replied", sig="answer-key")
+
+
+TRUSTED = [
+    "model: coq/Model/ResolM.v (_Resolution.next_request/next_nameserver/query_result, _compute_timeout, _get_qnames_to_try, Resolver.resolve loop, Answer, Cache get/put, QueryMessage.resolve_chaining, find_rrset/Rdataset.add as used to assemble replies)",
+    "scripted world shared by model and harness: query i gets outcome script[i] (then the tail forever); a reply that would take >= the granted timeout is a dns.exception.Timeout after exactly that timeout; clock = exact integer milliseconds (fractions.Fraction seconds patched into dns.resolver.time / dns.asyncresolver.time / the async backend sleep)",
+    "the asyncio resolver is driven on a private event loop with scripted Nameserver.async_query; sync and async observations must be identical",
+]
+RULE = (
+    "cases = resolver configuration x 1-3 resolve() calls sharing cache and clock x script of per-query outcomes; random profiles "
+    "(mixed/soft/hard/search/chain) plus every sequence of outcome kinds up to the stated depth for fixed settings; "
+    "distinct = distinct canonical case; non-trivial = implementation returned an observation"
+)
+ASSUMPTIONS = [
+    "durations are non-negative in terminates_within_lifetime / tc_retry_once_same_server (a clock stepping backwards is exercised by the correspondence only)",
+    "nameserver objects are distinct in broken_never_reasked (the same object listed twice is removed once per failure, as list.remove does)",
+]
